@@ -76,6 +76,12 @@ var families = []family{
 	{"wfailq/mgr/move+insertV", wfailqMgrLine, true, "S=ok R2=ok"},
 	{"wfailq/mgr/insert+delete", wfailqMgrLine, true, "S=ok R2=ok"},
 	{"wfailq/mgr/any", wfailqMgrLine, true, "S=ok R2=ok"},
+	// F6 (known finding): a search runs from start to end between the failed writer's Commit and the queued writer's
+	// end and registers a new shared cache, which the queued writer (on a temporary object) never updates. Not
+	// modelled: a writer's `cold` is not enabled while the map has an entry (invariant NOInv.wmap) - the model
+	// excludes exactly this step; judged by the oracle only.
+	{"wfailq/late/insert+insertV", "", false, ""},
+	{"wfailq/late/delete+insertV", "", false, ""},
 	// the reader had looked the object up; after the rolled-back writer gave it up it finds it scrapped: temporary cold object
 	{"wfailr/insert", wfailrLine, true, "S=ok R2=ok"},
 	{"wfailr/any", wfailrLine, true, "S=ok R2=ok"},
